@@ -25,8 +25,10 @@ var Check = &ev.Check{
 		"containers/structs of width<=2 over the full scalar alphabet at depth 1 and over representatives of the previous level at depth 2 (quick) / 3 (thorough); " +
 		"field ids from {1,-1,0,32767,-32768}; empty containers of every element type; thorough adds binaries of 1MiB-1, 1MiB, 1MiB+1). " +
 		"Values are distinct by construction; non-trivial = every value (each has its own byte image). Per value the value encoder, the stream writer, Decode, ReadValue, Decode over a short-reading ReaderAt and the primitive stream walk under read segmentations (whole, all-1-byte, first-read-1-byte, zero-length reads, every single cut for encodings <=24 bytes) are compared with the independent spec codec.",
-	Run:    run,
-	Budget: func(t string) time.Duration { return map[string]time.Duration{"quick": 3 * time.Minute, "thorough": 25 * time.Minute}[t] },
+	Run: run,
+	Budget: func(t string) time.Duration {
+		return map[string]time.Duration{"quick": 3 * time.Minute, "thorough": 25 * time.Minute}[t]
+	},
 	Assumptions: []string{
 		"ref/tbin is a faithful transcription of the Thrift binary protocol specification (cross-checked by its own encode/decode identity on the whole domain in this run)",
 		"values outside the stated alphabets/widths/depths are not covered (no sampling in this family)",
@@ -179,4 +181,3 @@ func (s shortReaderAt) ReadAt(p []byte, off int64) (int, error) {
 	}
 	return n, nil
 }
-
